@@ -339,8 +339,10 @@ def drive(prop, tier, seed, only, scratch, t_start):
         wall_s=round(wall, 2),
         violations=len(violations),
     )
-    os.makedirs(os.path.join(VERIF, 'evidence'), exist_ok=True)
-    with open(os.path.join(VERIF, 'evidence', '%s.json' % prop), 'w') as f:
+    # evidence is about /repo; runs against another tree (self-tests on mutants) write elsewhere
+    evdir = 'evidence' if os.path.realpath(REPO) == '/repo' else 'evidence-alt'
+    os.makedirs(os.path.join(VERIF, evdir), exist_ok=True)
+    with open(os.path.join(VERIF, evdir, '%s.json' % prop), 'w') as f:
         json.dump(ev, f, indent=1, default=repr)
     print('SUMMARY property=%s tier=%s conditions=%d held=%d inconclusive=%d violations=%d harness_errors=%d '
           'known=%d paths=%d wall=%.1fs' % (prop, tier, n_obl, len(held), len(inconclusive), len(violations),
